@@ -43,7 +43,12 @@ try:
             rc, out = sh(f"./check {pid} --repo {wt} --no-evidence", cwd=VERIF)
             if rc != 0:
                 lines = [l for l in out.splitlines() if l.startswith("geometer/") or "ANALYSIS-ERROR" in l]
-                detected[pid] = {"exit": rc, "report": [l.replace(wt + "/", "")[:300] for l in lines[:4]]}
+                entry = {"exit": rc, "report": [l.replace(wt + "/", "")[:300] for l in lines[:4]]}
+                # only a VIOLATION line (exit 1) is a detection; exit 2 means the checker could not analyse the changed tree
+                if rc == 1 and "VIOLATION property=" in out:
+                    detected[pid] = entry
+                else:
+                    res.setdefault("analysis_errors", {})[pid] = entry
         res["detected_by"] = detected
 finally:
     sh(f"git -C /repo worktree remove --force {wt}")
@@ -68,4 +73,5 @@ if keep:
     meta["what_was_run"] = ("fresh scratch worktree of /repo HEAD: demo.py on the clean tree, git apply patch.diff, demo.py again, full pytest suite, "
                             "then every quick check of MANIFEST.json with --repo <worktree>; worktree removed afterwards")
     meta["detected_by"] = res.get("detected_by", {})
+    meta["analysis_errors"] = res.get("analysis_errors", {})
     json.dump(meta, open(os.path.join(dst, "meta.json"), "w"), indent=1)
